@@ -962,6 +962,7 @@ def do_lift(code, d, rec):
     anchor = rest[0]
     if ' :: ' in raw:
         sig = raw.split(' :: ', 1)[1].strip()
+        sig = re.sub(r'\s+tail\s+"[^"]*"\s*$', '', sig)
     else:
         sig = raw[raw.index(' fn ') + 1:]
     m = mask(code)
@@ -994,4 +995,8 @@ def do_lift(code, d, rec):
         rec['transformations'].append({'rule': 'E14', 'what': 'body of loop %r lifted to `%s` (%d `continue` -> `return`); the loop shell `for x in xs { body(x) }` itself is not verified (Verus for-loops do not support continue)' % (anchor, sig, n)})
     else:
         rec['transformations'].append({'rule': 'E9', 'what': 'block after %r lifted to `%s`' % (anchor, sig)})
+    if 'tail' in rest:
+        tail = rest[rest.index('tail') + 1]
+        rec['transformations'].append({'rule': 'E9', 'what': 'lifted block is a statement of the original function; `%s` appended as the value of the lifted function' % tail})
+        return sig + ' {\n' + body + ';\n' + tail + '\n}'
     return sig + ' ' + body
